@@ -579,6 +579,19 @@ template <class L> class LabeledFamily : public IAlgoFamily {
             mp.push_back({kv.first, kv.second});
         r.records.push_back({{"k", "remap"}, {"dir", GInfo<G>::directed}, {"g", c.at("g")}, {"S", c.at("S")},
                              {"h", encOf(pr.first)}, {"map", mp}, {"family", name()}});
+        // the subset written as a braced list in the call, one vertex named twice: the same set
+        if (!sv.empty()) {
+            const VertexIndex a = sv[0], b = sv.size() > 1 ? sv[1] : sv[0], d = sv.size() > 2 ? sv[2] : sv[0];
+            auto viaSet = algorithms::getSubgraphWithRemap(g, std::unordered_set<VertexIndex>{a, b, d});
+            auto braced = algorithms::getSubgraphWithRemap(g, {a, b, b, d, a});
+            auto sub2 = algorithms::getSubgraph(g, {a, b, b, d, a});
+            auto sub1 = algorithms::getSubgraph(g, std::unordered_set<VertexIndex>{a, b, d});
+            if (braced.first.getSize() != viaSet.first.getSize() || braced.second.size() != viaSet.second.size() ||
+                braced.first.getEdgeNumber() != viaSet.first.getEdgeNumber() || encOf(sub1) != encOf(sub2))
+                return r.fail("a subset given as a braced list naming a vertex twice gives another result than the same set: " +
+                              std::to_string(braced.first.getSize()) + " vertices, " + std::to_string(braced.second.size()) +
+                              " keys instead of " + std::to_string(viaSet.first.getSize()) + ", " + std::to_string(viaSet.second.size()));
+        }
         // the result of a pure function does not depend on how often it has been called before:
         // c.repeat further calls in this thread, over changing subsets, each compared with the
         // first result for the same subset (8/16-bit call counters, epoch stamps, caches)
